@@ -33,3 +33,7 @@ package gdef
 //@     invariant parser.inv(p) && p.r == r && fresh(coverageOffsets) && len(coverageOffsets) == markGlyphSetCount && faults(r) <= old(faults(r)) && table != nil && fresh(table) && pos >= 0
 //@   loop 1
 //@     invariant parser.inv(p) && p.r == r && len(coverageOffsets) == markGlyphSetCount && len(table.MarkGlyphSets) == markGlyphSetCount && fresh(table.MarkGlyphSets) && faults(r) <= old(faults(r)) && table != nil && fresh(table) && pos >= 0
+
+//@ func (table *Table) IsMark(gid glyph.ID) (yes bool)   props: C15 C16
+//@   ensures yes == (table != nil && table.GlyphClass != nil && table.GlyphClass[gid] == 3)
+//@   modifies nothing
